@@ -208,6 +208,17 @@ def svref(factory, impl, sv):
     return dawgie.SV_REF(factory=factory, impl=impl, item=impl.sv_as_dict()[sv])
 
 
+class CallableFactory:
+    # can be called like the factory it wraps, carries its name and module, but is not a function (fault ref_factory_object)
+    def __init__(self, factory):
+        self._factory = factory
+        self.__module__ = factory.__module__
+        self.__name__ = factory.__name__
+
+    def __call__(self, *args, **kwds):
+        return self._factory(*args, **kwds)
+
+
 def vref(factory, impl, sv, feat):
     return dawgie.V_REF(factory=factory, impl=impl, item=impl.sv_as_dict()[sv], feat=feat)
 '''
@@ -277,6 +288,8 @@ class _Emitter:
         imp = self._impl_expr(r[1])
         if f.has('ref_factory_str', *at):
             fac = repr(self.idx[r[1]]['kind'])
+        if f.has('ref_factory_object', *at):
+            fac = f'{self.root}.CallableFactory({fac})'
         if f.has('ref_impl_class', *at):
             imp = imp[:-2]
         if f.has('ref_wrong_factory', *at):
